@@ -14,17 +14,21 @@ package main
 
 import (
 	"bytes"
+	"context"
+	"crypto/tls"
 	"encoding/json"
 	"errors"
 	"fmt"
 	"math/rand"
 	"net"
+	"net/http"
 	"runtime"
 	"strings"
 	"sync"
 	"time"
 
 	xmpp "gosrc.io/xmpp"
+	"nhooyr.io/websocket"
 )
 
 const (
@@ -54,10 +58,16 @@ type c18Obs struct {
 	SrvAtEnd   int  `json:"srv_at_end,omitempty"`
 	SrvFinal   int  `json:"srv_final,omitempty"`
 	ConnectErr bool `json:"connect_err,omitempty"`
+	// e2e, while the session is up: successful pings so far / keep-alive bytes the server then saw in the XML stream (bounded wait)
+	MidWant     int    `json:"mid_want,omitempty"`
+	MidGot      int    `json:"mid_got,omitempty"`
+	LostWhileUp bool   `json:"lost_while_up,omitempty"` // e2e: Disconnected before the harness ended the session
+	RawBad      string `json:"raw_bad,omitempty"`       // e2e over TLS: first thing on the socket that is not a TLS record
+	DetectUs    int64  `json:"detect_us,omitempty"`     // ws: from the cut to the Disconnected event
 }
 
 type c18In struct {
-	Kind     string   `json:"kind"`               // run phase quitfirst fail badiv tcprun tcpfail conn e2e
+	Kind     string   `json:"kind"`               // run phase quitfirst fail badiv tcprun tcpfail conn e2e ws
 	IvUs     int      `json:"iv_us"`              // interval, microseconds
 	Ticks    int      `json:"ticks,omitempty"`    // run/phase/tcprun: quit is closed after Ticks intervals ...
 	PhasePct int      `json:"phase,omitempty"`    // ... plus this percentage of one interval
@@ -67,6 +77,7 @@ type c18In struct {
 	Slow     bool     `json:"slow,omitempty"`     // tcpfail: nobody answers the stream close, Close sits out ConnectTimeout (1 s)
 	Script   [][2]int `json:"script,omitempty"`   // conn: (n, err?) returned by the successive conn.Write calls, then (len, nil); after an error every write fails
 	Recv     bool     `json:"recv,omitempty"`     // conn: a real Client receive loop blocked in Read on the same connection, sharing quit
+	TLS      string   `json:"tls,omitempty"`      // e2e: "" plain TCP | verify (STARTTLS, RootCAs) | skip (STARTTLS, InsecureSkipVerify)
 	End      string   `json:"end,omitempty"`      // e2e: drop (server resets) | srvclose (server sends </stream:stream>) | disconnect (Client.Disconnect)
 	Suffix   []int    `json:"suffix,omitempty"`   // model only: what the schedule goes on offering (0 tick, 1 quit)
 	Obs      *c18Obs  `json:"observed,omitempty"` // filled by Run
@@ -80,7 +91,7 @@ func (c18) ID() string    { return "C18" }
 func (c18) RunFn() string { return "run_C18" }
 func (c18) Workers() int  { return 8 }
 func (c18) Rule() string {
-	return "keepalive goroutine (VerifKeepalive) on a recording stub transport, intervals 1-10 ms: run for T then close quit; quit closed at a random phase of the ticker (0-5 intervals + 0-99 %, incl. exactly on a tick); quit closed before the goroutine starts; Ping failing at the k-th call for every k in 1..10 x interval; interval 0 / negative. Real XMPPTransport over loopback TCP (scripted server records every byte after the stream header): healthy run, server resets / closes the connection after reading n bytes (Close waiting out its timeout or answered at once). Real XMPPTransport over a scripted net.Conn: every conn.Write / conn.Close call, scripted write results (short counts, errors; after an error the connection stays dead for writing while reads block), with and without a real Client receive loop blocked on the same connection and sharing quit: the connection must get closed after the failed keep-alive and the loss be reported (ErrorHandler, Disconnected). End to end: real Client.Connect (KeepaliveInterval 2-5 ms) against the scripted XMPP server (SASL PLAIN + bind), session up for T, then ended by a server reset / the server's </stream:stream> / Client.Disconnect at a random phase; Ping and Close calls logged by a wrapper around the client's transport, keep-alive bytes counted at the server; after the Disconnected event + grace nothing may be pinged for 10 more intervals. The model receives the observed schedule (successful pings before the terminating event, how the run ended) plus a random continuation and must reproduce the ordered log ping-ok/ping-failed/Close/loop-over, the wire bytes, the calls on the connection and the reporting of the loss; distinct = scenario parameters; non-trivial = at least 2 pings before the terminating event"
+	return "keepalive goroutine (VerifKeepalive) on a recording stub transport, intervals 1-10 ms: run for T then close quit; quit closed at a random phase of the ticker (0-5 intervals + 0-99 %, incl. exactly on a tick); quit closed before the goroutine starts; Ping failing at the k-th call for every k in 1..10 x interval; interval 0 / negative. Real XMPPTransport over loopback TCP (scripted server records every byte after the stream header): healthy run, server resets / closes the connection after reading n bytes (Close waiting out its timeout or answered at once). Real XMPPTransport over a scripted net.Conn: every conn.Write / conn.Close call, scripted write results (short counts, errors; after an error the connection stays dead for writing while reads block), with and without a real Client receive loop blocked on the same connection and sharing quit: the connection must get closed after the failed keep-alive and the loss be reported (ErrorHandler, Disconnected). End to end: real Client.Connect (KeepaliveInterval 2-5 ms) against the scripted XMPP server (SASL PLAIN + bind), session up for T, then ended by a server reset / the server's </stream:stream> / Client.Disconnect at a random phase; Ping and Close calls logged by a wrapper around the client's transport, keep-alive bytes counted at the server; after the Disconnected event + grace nothing may be pinged for 10 more intervals; the same over real STARTTLS with the certificate verified (RootCAs) and with InsecureSkipVerify: the keep-alive bytes must show up in the DECRYPTED stream at the server, the raw socket must carry nothing but TLS records, the session must not be torn down while it is up. WebSocket transport end to end (loopback nhooyr.io/websocket server, RFC 7395 open exchange, keepalive + receive loop started as Client.Connect does): pings answered for T, then the TCP connection underneath is reset / closed: the failed keep-alive (a WebSocket ping control frame, not whitespace: only the closed-so-that-the-loss-is-reported clause is checked there) must lead to Close, ErrorHandler and Disconnected within 8 s. The model receives the observed schedule (successful pings before the terminating event, how the run ended) plus a random continuation and must reproduce the ordered log ping-ok/ping-failed/Close/loop-over, the wire bytes, the calls on the connection and the reporting of the loss; distinct = scenario parameters; non-trivial = at least 2 pings before the terminating event"
 }
 
 func c18Suffix(r *rand.Rand) []int {
@@ -215,6 +226,21 @@ func (c18) Gen(r *rand.Rand, tier string) []interface{} {
 		for _, end := range []string{"drop", "srvclose", "disconnect"} {
 			add(&c18In{Kind: "e2e", End: end, IvUs: 1000 * (2 + r.Intn(4)), Ticks: 6 + r.Intn(10), PhasePct: r.Intn(100)})
 		}
+	}
+	// ... over STARTTLS, certificate verified or not (the scripted server cannot push inside TLS: no srvclose)
+	for i := 0; i < ne2e; i++ {
+		for _, mode := range []string{"verify", "skip"} {
+			add(&c18In{Kind: "e2e", TLS: mode, End: []string{"drop", "disconnect"}[i%2], IvUs: 1000 * (2 + r.Intn(4)), Ticks: 8 + r.Intn(10), PhasePct: r.Intn(100)})
+		}
+	}
+	// WebSocket transport: the TCP connection underneath is cut
+	nws := 1
+	if thorough {
+		nws = 6
+	}
+	for i := 0; i < nws; i++ {
+		add(&c18In{Kind: "ws", IvUs: 1000 * (3 + r.Intn(5)), Ticks: 3 + r.Intn(6)})
+		add(&c18In{Kind: "ws", IvUs: 1000 * (3 + r.Intn(5)), Ticks: 3 + r.Intn(6), Fin: true})
 	}
 	return out
 }
@@ -410,6 +436,8 @@ func (c18) Run(inp interface{}) Sx {
 			obs, o = runKeepaliveConn(in, attempt)
 		} else if in.Kind == "e2e" {
 			obs, o = runKeepaliveE2E(in, attempt)
+		} else if in.Kind == "ws" {
+			obs, o = runKeepaliveWS(in, attempt)
 		} else {
 			obs, o = runKeepaliveStub(in, attempt)
 		}
@@ -427,7 +455,7 @@ func (c18) Run(inp interface{}) Sx {
 // tooFewPings: fewer than a third of the nominal number of keep-alives.
 func (in *c18In) tooFewPings() bool {
 	switch in.Kind {
-	case "run", "phase", "tcprun", "conn", "e2e":
+	case "run", "phase", "tcprun", "conn", "e2e", "ws":
 		return in.Obs != nil && in.Obs.SetupErr == "" && in.nominal() >= 3 && in.Obs.NSucc < in.nominal()/3
 	}
 	return false
@@ -807,7 +835,18 @@ func runKeepaliveE2E(in *c18In, attempt int) (Sx, *c18Obs) {
 		{hdrItem(), {T: "features", Bind: true}},
 		{{T: "iq", Typ: "result", ID: "b", Pl: "bind", Jid: "user@" + srvDomain + "/r"}},
 	}
-	srv, err := startScriptedServer([]connScript{{Groups: groups}})
+	if in.TLS != "" {
+		initCerts()
+		groups = append([][]sItem{{hdrItem(), {T: "features", TLS: 2, Mechs: []string{"PLAIN"}}}, {{T: "proceed"}}}, groups...)
+	}
+	// the keep-alive bytes in the XML stream as the server reads it (inside TLS when there is TLS)
+	stream := func(lg connLog) []byte {
+		if in.TLS != "" {
+			return lg.SecureBy
+		}
+		return lg.ClearBy
+	}
+	srv, err := startScriptedServer([]connScript{{Groups: groups, Cert: "valid"}})
 	if err != nil {
 		return setupErr("listen: " + err.Error())
 	}
@@ -816,6 +855,12 @@ func runKeepaliveE2E(in *c18In, attempt int) (Sx, *c18Obs) {
 		TransportConfiguration: xmpp.TransportConfiguration{Address: srv.addr(), Domain: srvDomain, ConnectTimeout: 1},
 		Jid:                    "user@" + srvDomain, Credential: xmpp.Password("secret"), Insecure: true,
 		ConnectTimeout: 1, KeepaliveInterval: iv,
+	}
+	switch in.TLS {
+	case "verify":
+		cfg.Insecure, cfg.TLSConfig = false, &tls.Config{RootCAs: caPool}
+	case "skip":
+		cfg.Insecure, cfg.TLSConfig = false, &tls.Config{InsecureSkipVerify: true}
 	}
 	var mu sync.Mutex
 	errCalls, discEvents := 0, 0
@@ -846,6 +891,25 @@ func runKeepaliveE2E(in *c18In, attempt int) (Sx, *c18Obs) {
 	}
 	// the session is up
 	time.Sleep(time.Duration(in.Ticks)*iv + time.Duration(in.PhasePct)*iv/100)
+	// every keep-alive reported as written so far must be in the stream the server reads (bounded wait)
+	midWant, midGot := 0, 0
+	for _, e := range rec.snapshot() {
+		if e.code == kaPingOk {
+			midWant++
+		}
+	}
+	for dl := time.Now().Add(2 * time.Second); ; time.Sleep(time.Millisecond) {
+		if logs := srv.snapshot(); len(logs) > 0 {
+			w, _ := kaKeepaliveBytes(stream(logs[0]))
+			midGot = bytes.Count(w, []byte("\n"))
+		}
+		if midGot >= midWant || time.Now().After(dl) {
+			break
+		}
+	}
+	mu.Lock()
+	lostWhileUp := discEvents > 0
+	mu.Unlock()
 	closeAt := time.Now()
 	switch in.End {
 	case "drop":
@@ -868,7 +932,7 @@ func runKeepaliveE2E(in *c18In, attempt int) (Sx, *c18Obs) {
 	rec.add(kaReturn) // from here on the keep-alive loop must be gone
 	atEnd := 0
 	if logs := srv.snapshot(); len(logs) > 0 {
-		w, _ := kaKeepaliveBytes(logs[0].ClearBy)
+		w, _ := kaKeepaliveBytes(stream(logs[0]))
 		atEnd = len(w)
 	}
 	window := 10 * iv
@@ -878,18 +942,159 @@ func runKeepaliveE2E(in *c18In, attempt int) (Sx, *c18Obs) {
 	time.Sleep(window)
 	evs := rec.snapshot()
 	var wire []byte
+	rawBad := ""
 	if logs := srv.snapshot(); len(logs) > 0 {
-		wire, _ = kaKeepaliveBytes(logs[0].ClearBy)
+		wire, _ = kaKeepaliveBytes(stream(logs[0]))
+		if in.TLS != "" {
+			rawBad = kaNotTLSRecords(logs[0].RawBy)
+		}
 	}
 	mu.Lock()
 	o := c18Summarise(evs, start, closeAt, true, attempt)
 	o.ErrCalls, o.DiscEvents = errCalls, discEvents
 	mu.Unlock()
 	o.SrvN, o.SrvAtEnd, o.SrvFinal = len(wire), atEnd, len(wire)
+	o.MidWant, o.MidGot, o.LostWhileUp, o.RawBad = midWant, midGot, lostWhileUp, rawBad
 	if in.End == "srvclose" {
 		go client.Disconnect() // the transport is still open: let it go (up to ConnectTimeout, in the background)
 	}
 	return L(kaEvsSx(evs), SBytes(string(wire)), L(), L(Zi(o.ErrCalls), Zi(o.DiscEvents))), o
+}
+
+// kaNotTLSRecords: "" if b is a sequence of TLS records (the last one possibly incomplete),
+// else a description of the first thing that is not.
+func kaNotTLSRecords(b []byte) string {
+	off := 0
+	for len(b)-off >= 5 {
+		typ, maj, n := b[off], b[off+1], int(b[off+3])<<8|int(b[off+4])
+		if typ < 20 || typ > 23 || maj != 3 || b[off+2] > 4 || n > 16384+2048 {
+			end := off + 8
+			if end > len(b) {
+				end = len(b)
+			}
+			return fmt.Sprintf("offset %d: % x", off, b[off:end])
+		}
+		off += 5 + n
+	}
+	if off < len(b) && (b[off] < 20 || b[off] > 23) {
+		return fmt.Sprintf("offset %d: % x", off, b[off:])
+	}
+	return ""
+}
+
+// ---- WebSocket transport end to end: the TCP connection underneath is cut ----
+
+type kaKeepListener struct {
+	net.Listener
+	mu    sync.Mutex
+	conns []net.Conn
+}
+
+func (l *kaKeepListener) Accept() (net.Conn, error) {
+	c, err := l.Listener.Accept()
+	if err == nil {
+		l.mu.Lock()
+		l.conns = append(l.conns, c)
+		l.mu.Unlock()
+	}
+	return c, err
+}
+func (l *kaKeepListener) cut(fin bool) {
+	l.mu.Lock()
+	defer l.mu.Unlock()
+	for _, c := range l.conns {
+		if tc, ok := c.(*net.TCPConn); ok && !fin {
+			tc.SetLinger(0)
+		}
+		c.Close()
+	}
+}
+
+func runKeepaliveWS(in *c18In, attempt int) (Sx, *c18Obs) {
+	iv := time.Duration(in.IvUs) * time.Microsecond
+	setupErr := func(msg string) (Sx, *c18Obs) {
+		return L(L(Z(-2)), SBytes(msg), L(), kaNoReport), &c18Obs{Attempts: attempt, SetupErr: msg, CloseUs: -1, ReturnUs: -1}
+	}
+	base, err := net.Listen("tcp", "127.0.0.1:0")
+	if err != nil {
+		return setupErr("listen: " + err.Error())
+	}
+	ln := &kaKeepListener{Listener: base}
+	ctx, cancel := context.WithCancel(context.Background())
+	defer cancel()
+	hs := &http.Server{Handler: http.HandlerFunc(func(w http.ResponseWriter, r *http.Request) {
+		c, err := websocket.Accept(w, r, &websocket.AcceptOptions{Subprotocols: []string{"xmpp"}})
+		if err != nil {
+			return
+		}
+		c.SetReadLimit(1 << 20)
+		if c.Write(ctx, websocket.MessageText, []byte(`<open xmlns="urn:ietf:params:xml:ns:xmpp-framing" id="x" version="1.0"/>`)) != nil {
+			return
+		}
+		for { // reading is what answers the client's pings
+			if _, _, err := c.Read(ctx); err != nil {
+				return
+			}
+		}
+	})}
+	go hs.Serve(ln)
+	defer hs.Close()
+
+	inner := xmpp.NewClientTransport(xmpp.TransportConfiguration{Address: "ws://" + base.Addr().String() + "/ws", Domain: "localhost", ConnectTimeout: 2})
+	if _, err := inner.Connect(); err != nil {
+		return setupErr("ws connect: " + err.Error())
+	}
+	rec := &kaRec{}
+	tr := &kaReal{Transport: inner, rec: rec, slow: true}
+	var mu sync.Mutex
+	errCalls, discEvents := 0, 0
+	var discAt time.Time
+	cfg := &xmpp.Config{TransportConfiguration: xmpp.TransportConfiguration{Address: "localhost:1"}, Jid: "u@localhost", Credential: xmpp.Password("p"), Insecure: true}
+	client, err := xmpp.NewClient(cfg, xmpp.NewRouter(), func(error) { mu.Lock(); errCalls++; mu.Unlock() })
+	if err != nil {
+		return setupErr("newclient: " + err.Error())
+	}
+	client.SetHandler(func(e xmpp.Event) error {
+		if xmpp.VerifEventState(e) == xmpp.StateDisconnected {
+			mu.Lock()
+			discEvents++
+			if discEvents == 1 {
+				discAt = time.Now()
+			}
+			mu.Unlock()
+		}
+		return nil
+	})
+	xmpp.VerifSetTransport(client, tr)
+	xmpp.VerifSetSession(client, xmpp.SMState{})
+	// the tail of Client.Connect
+	quit := make(chan struct{})
+	recvDone := make(chan struct{})
+	start := time.Now()
+	done := kaStart(tr, rec, iv, quit)
+	go func() {
+		defer close(recvDone)
+		xmpp.VerifRecv(client, quit)
+	}()
+	time.Sleep(time.Duration(in.Ticks) * iv)
+	mu.Lock()
+	lostWhileUp := discEvents > 0
+	mu.Unlock()
+	cutAt := time.Now()
+	ln.cut(in.Fin)
+	// pingTimeout in the library is 5 s; a cut connection should be noticed much faster
+	kaWaitDone(done, 8*time.Second)
+	kaWaitDone(recvDone, 2*time.Second)
+	kaSettle(iv)
+	evs := rec.snapshot()
+	mu.Lock()
+	o := c18Summarise(evs, start, cutAt, false, attempt)
+	o.ErrCalls, o.DiscEvents, o.LostWhileUp = errCalls, discEvents, lostWhileUp
+	if discEvents > 0 {
+		o.DetectUs = discAt.Sub(cutAt).Microseconds()
+	}
+	mu.Unlock()
+	return L(kaEvsSx(evs), SBytes(""), L(), L(Zi(o.ErrCalls), Zi(o.DiscEvents))), o
 }
 
 // ---- model input ----
@@ -921,6 +1126,9 @@ func (c18) Input(inp interface{}) Sx {
 		if in.Recv {
 			end = 1
 		}
+	} else if in.Kind == "ws" {
+		// a transport whose Ping starts failing (which one: observed), with a receive loop blocked on it
+		term, failAt, end = 1, o.NSucc+1, 1
 	} else if in.Kind == "e2e" {
 		// the server stops reading when it resets the connection or has answered the client's closing tag
 		mode, lossy, end = 1, in.End != "srvclose", 2
@@ -1019,7 +1227,29 @@ func (c18) Oracle(inp interface{}, obs Sx) (string, string) {
 		}
 	}
 	switch in.Kind {
+	case "ws":
+		if o.LostWhileUp {
+			return "WebSocket session reported lost while the connection was healthy", "session-lost-while-up"
+		}
+		if firstFail < 0 {
+			return "TCP connection under the WebSocket cut, but no keep-alive failed within 8 s", "failure-not-reached"
+		}
+		if o.ErrCalls < 1 || o.DiscEvents < 1 {
+			return fmt.Sprintf("TCP connection under the WebSocket cut (fin=%v): the keep-alive failed and Close was called, but the receive loop stays blocked: %d error callbacks, %d Disconnected events after 10 s", in.Fin, o.ErrCalls, o.DiscEvents), "loss-not-reported"
+		}
+		if in.tooFewPings() {
+			return fmt.Sprintf("%d keep-alives in %d intervals (3 attempts)", pings, in.nominal()), "too-few-pings"
+		}
 	case "e2e":
+		if o.LostWhileUp {
+			return fmt.Sprintf("session (tls=%q) torn down while it was up, after %d keep-alives (raw socket: %s)", in.TLS, pings, o.RawBad), "session-lost-while-up"
+		}
+		if o.MidGot < o.MidWant {
+			return fmt.Sprintf("%d keep-alives reported written, only %d reached the XML stream the server reads (tls=%q)", o.MidWant, o.MidGot, in.TLS), "keepalive-not-in-stream"
+		}
+		if o.RawBad != "" {
+			return "after STARTTLS the socket carried something that is not a TLS record: " + o.RawBad, "raw-bytes-under-tls"
+		}
 		if o.DiscEvents < 1 {
 			return "session ended by " + in.End + " but no Disconnected event within 5 s", "loss-not-reported"
 		}
@@ -1155,10 +1385,11 @@ func (c18) Key(inp interface{}) (string, bool) {
 	}
 	if in.Kind == "e2e" {
 		hist("e2e-end:" + in.End)
+		hist("e2e-tls:" + in.TLS)
 	}
 	if in.Kind == "conn" && in.Recv {
 		hist("conn-with-receive-loop")
 	}
-	k := fmt.Sprintf("%s iv%d t%d p%d k%d cut%d fin%v slow%v %v recv%v %s", in.Kind, in.IvUs, in.Ticks, in.PhasePct, in.FailAt, in.CutAfter, in.Fin, in.Slow, in.Script, in.Recv, in.End)
+	k := fmt.Sprintf("%s iv%d t%d p%d k%d cut%d fin%v slow%v %v recv%v %s", in.Kind, in.IvUs, in.Ticks, in.PhasePct, in.FailAt, in.CutAfter, in.Fin, in.Slow, in.Script, in.Recv, in.End+in.TLS)
 	return k, n >= 2
 }
